@@ -147,7 +147,8 @@ def build(system, spec):
         y = a[4] if len(a) > 4 else None
         if kind == 'wo':
             y = None
-        env.schedule_event(t, -3, partial(do_action, kind, x, y, rm, maint, env), prio, f'action {kind}')
+        # events that belong to no asset carry the id -1 (the id the library itself uses for such events)
+        env.schedule_event(t, -1, partial(do_action, kind, x, y, rm, maint, env), prio, f'action {kind}')
     system.verif = {'D': D, 'generated': generated, 'maint': maint, 'sensors': sensors}
     return system
 
